@@ -213,7 +213,10 @@ Definition ustep_len (p : uparser) (b : bytes) (cont : ustate) : ulres :=
   if up_marker p =? 0 then
     match b with
     | [] => ULC 5
-    | m :: r => if zlen r =? 0 then UL (uset_marker p m) [] unilE else go (uset_marker p m) r
+    | m :: r =>
+        if negb ((m =? mi) || (m =? mU) || (m =? mI) || (m =? ml) || (m =? mL))
+        then UL (uset_marker p m) [] ueUnknownMarker
+        else if zlen r =? 0 then UL (uset_marker p m) [] unilE else go (uset_marker p m) r
     end
   else go p b.
 
